@@ -261,4 +261,24 @@ theorem vert_u8_sse4_chunk4_eq_portable (p : Nat) (hp : p < 32) (rows : List (Li
 theorem vert_u8_sse4_source_as_modelled : Fir.Gen.vert_u8_sse4_skeleton =
     "_mm_set1_epi32(1 << (PRECISION - 1)) ; chunks_exact_mut(32) ; chunks_exact(2) ; remainder() ; iter_2_rows(y_start, max_rows) ; simd_utils::mm_load_and_clone_i16x2(two_coeffs) ; simd_utils::loadu_si128(components1, src_x) ; simd_utils::loadu_si128(components2, src_x) ; _mm_unpacklo_epi8(source1, source2) ; _mm_unpacklo_epi8(source, _mm_setzero_si128()) ; _mm_add_epi32(sss0, _mm_madd_epi16(pix, mmk)) ; _mm_unpackhi_epi8(source, _mm_setzero_si128()) ; _mm_add_epi32(sss1, _mm_madd_epi16(pix, mmk)) ; _mm_unpackhi_epi8(source1, source2) ; _mm_unpacklo_epi8(source, _mm_setzero_si128()) ; _mm_add_epi32(sss2, _mm_madd_epi16(pix, mmk)) ; _mm_unpackhi_epi8(source, _mm_setzero_si128()) ; _mm_add_epi32(sss3, _mm_madd_epi16(pix, mmk)) ; simd_utils::loadu_si128(components1, src_x + 16) ; simd_utils::loadu_si128(components2, src_x + 16) ; _mm_unpacklo_epi8(source1, source2) ; _mm_unpacklo_epi8(source, _mm_setzero_si128()) ; _mm_add_epi32(sss4, _mm_madd_epi16(pix, mmk)) ; _mm_unpackhi_epi8(source, _mm_setzero_si128()) ; _mm_add_epi32(sss5, _mm_madd_epi16(pix, mmk)) ; _mm_unpackhi_epi8(source1, source2) ; _mm_unpacklo_epi8(source, _mm_setzero_si128()) ; _mm_add_epi32(sss6, _mm_madd_epi16(pix, mmk)) ; _mm_unpackhi_epi8(source, _mm_setzero_si128()) ; _mm_add_epi32(sss7, _mm_madd_epi16(pix, mmk)) ; first() ; iter_rows(y_last) ; _mm_set1_epi32(k as i32) ; simd_utils::loadu_si128(components, src_x) ; _mm_unpacklo_epi8(source1, _mm_setzero_si128()) ; _mm_unpacklo_epi8(source, _mm_setzero_si128()) ; _mm_add_epi32(sss0, _mm_madd_epi16(pix, mmk)) ; _mm_unpackhi_epi8(source, _mm_setzero_si128()) ; _mm_add_epi32(sss1, _mm_madd_epi16(pix, mmk)) ; _mm_unpackhi_epi8(source1, _mm_setzero_si128()) ; _mm_unpacklo_epi8(source, _mm_setzero_si128()) ; _mm_add_epi32(sss2, _mm_madd_epi16(pix, mmk)) ; _mm_unpackhi_epi8(source, _mm_setzero_si128()) ; _mm_add_epi32(sss3, _mm_madd_epi16(pix, mmk)) ; simd_utils::loadu_si128(components, src_x + 16) ; _mm_unpacklo_epi8(source1, _mm_setzero_si128()) ; _mm_unpacklo_epi8(source, _mm_setzero_si128()) ; _mm_add_epi32(sss4, _mm_madd_epi16(pix, mmk)) ; _mm_unpackhi_epi8(source, _mm_setzero_si128()) ; _mm_add_epi32(sss5, _mm_madd_epi16(pix, mmk)) ; _mm_unpackhi_epi8(source1, _mm_setzero_si128()) ; _mm_unpacklo_epi8(source, _mm_setzero_si128()) ; _mm_add_epi32(sss6, _mm_madd_epi16(pix, mmk)) ; _mm_unpackhi_epi8(source, _mm_setzero_si128()) ; _mm_add_epi32(sss7, _mm_madd_epi16(pix, mmk)) ; _mm_srai_epi32::<PRECISION>(sss0) ; _mm_srai_epi32::<PRECISION>(sss1) ; _mm_srai_epi32::<PRECISION>(sss2) ; _mm_srai_epi32::<PRECISION>(sss3) ; _mm_srai_epi32::<PRECISION>(sss4) ; _mm_srai_epi32::<PRECISION>(sss5) ; _mm_srai_epi32::<PRECISION>(sss6) ; _mm_srai_epi32::<PRECISION>(sss7) ; _mm_packs_epi32(sss0, sss1) ; _mm_packs_epi32(sss2, sss3) ; _mm_packus_epi16(sss0, sss2) ; _mm_storeu_si128(dst_ptr, sss0) ; _mm_packs_epi32(sss4, sss5) ; _mm_packs_epi32(sss6, sss7) ; _mm_packus_epi16(sss4, sss6) ; _mm_storeu_si128(dst_ptr, sss4) ; into_remainder() ; chunks_exact_mut(8) ; chunks_exact(2) ; remainder() ; iter_2_rows(y_start, max_rows) ; simd_utils::mm_load_and_clone_i16x2(two_coeffs) ; simd_utils::loadl_epi64(components1, src_x) ; simd_utils::loadl_epi64(components2, src_x) ; _mm_unpacklo_epi8(source1, source2) ; _mm_unpacklo_epi8(source, _mm_setzero_si128()) ; _mm_add_epi32(sss0, _mm_madd_epi16(pix, mmk)) ; _mm_unpackhi_epi8(source, _mm_setzero_si128()) ; _mm_add_epi32(sss1, _mm_madd_epi16(pix, mmk)) ; first() ; iter_rows(y_last) ; _mm_set1_epi32(k as i32) ; simd_utils::loadl_epi64(components, src_x) ; _mm_unpacklo_epi8(source1, _mm_setzero_si128()) ; _mm_unpacklo_epi8(source, _mm_setzero_si128()) ; _mm_add_epi32(sss0, _mm_madd_epi16(pix, mmk)) ; _mm_unpackhi_epi8(source, _mm_setzero_si128()) ; _mm_add_epi32(sss1, _mm_madd_epi16(pix, mmk)) ; _mm_srai_epi32::<PRECISION>(sss0) ; _mm_srai_epi32::<PRECISION>(sss1) ; _mm_packs_epi32(sss0, sss1) ; _mm_packus_epi16(sss0, sss0) ; _mm_storel_epi64(dst_ptr, sss0) ; into_remainder() ; chunks_exact_mut(4) ; chunks_exact(2) ; remainder() ; iter_2_rows(y_start, max_rows) ; simd_utils::mm_load_and_clone_i16x2(two_coeffs) ; simd_utils::mm_cvtsi32_si128_from_u8(components1, src_x) ; simd_utils::mm_cvtsi32_si128_from_u8(components2, src_x) ; _mm_unpacklo_epi8(source1, source2) ; _mm_unpacklo_epi8(source, _mm_setzero_si128()) ; _mm_add_epi32(sss, _mm_madd_epi16(pix, mmk)) ; first() ; iter_rows(y_last) ; simd_utils::mm_cvtepu8_epi32_from_u8(components, src_x) ; _mm_set1_epi32(k as i32) ; _mm_add_epi32(sss, _mm_madd_epi16(pix, mmk)) ; _mm_srai_epi32::<PRECISION>(sss) ; _mm_packs_epi32(sss, sss) ; _mm_cvtsi128_si32(_mm_packus_epi16(sss, sss)) ; into_remainder() ; native::convolution_by_u8(src_view, normalizer, 1 << (PRECISION - 1), dst_u8, src_x, y_start, coeffs,)" := by rfl
 
+/-! ### the AVX2 vertical pass for 8-bit components
+
+    src/convolution/vertical_u8/avx2.rs differs from the SSE4.1 file only in the 32-component step, which uses 256-bit
+    registers.  Every 256-bit instruction it uses there (`_mm256_unpacklo/hi_epi8`, `_mm256_madd_epi16`,
+    `_mm256_add_epi32`, `_mm256_srai_epi32`, `_mm256_packs_epi32`, `_mm256_packus_epi16`) works on the two 128-bit halves
+    independently (Intel's definition - the one modelling assumption here), `loadu_si256` is two 16-byte loads and the
+    store concatenates the halves: the step is two copies of the 128-bit computation on bytes `[x, x+16)` and
+    `[x+16, x+32)`, which is `Fir.SimdVertU8.chunk32 = block16 x ++ block16 (x + 16)`.  The 8- and 4-component steps are the
+    SSE4.1 code verbatim.  So the three theorems above are also the theorems of the AVX2 kernel; its call sequence is
+    pinned here, and the driver executes the lane model against the AVX2 kernel as well. -/
+
+theorem vert_u8_avx2_chunk32_eq_portable (p : Nat) (hp : p < 32) (rows : List (List Int)) (ks : List Int)
+    (h : ks.length ≤ rows.length) (x : Nat) :
+    Fir.SimdVertU8.block16 p rows ks x ++ Fir.SimdVertU8.block16 p rows ks (x + 16)
+      = (List.range 32).map fun j => clip8 (2 ^ (p - 1) + Fir.SimdVertU8.dotV rows ks (x + j)) p :=
+  Fir.Proofs.vert_u8_sse4_chunk32_eq p hp rows ks h x
+
+theorem vert_u8_avx2_source_as_modelled : Fir.Gen.vert_u8_avx2_skeleton =
+    "_mm_set1_epi32(1 << (PRECISION as u8 - 1)) ; _mm256_set1_epi32(1 << (PRECISION as u8 - 1)) ; chunks_exact_mut(32) ; chunks_exact(2) ; remainder() ; iter_2_rows(y_start, max_rows) ; simd_utils::mm256_load_and_clone_i16x2(two_coeffs) ; simd_utils::loadu_si256(components1, src_x) ; simd_utils::loadu_si256(components2, src_x) ; _mm256_unpacklo_epi8(source1, source2) ; _mm256_unpacklo_epi8(source, _mm256_setzero_si256()) ; _mm256_add_epi32(sss0, _mm256_madd_epi16(pix, mmk)) ; _mm256_unpackhi_epi8(source, _mm256_setzero_si256()) ; _mm256_add_epi32(sss1, _mm256_madd_epi16(pix, mmk)) ; _mm256_unpackhi_epi8(source1, source2) ; _mm256_unpacklo_epi8(source, _mm256_setzero_si256()) ; _mm256_add_epi32(sss2, _mm256_madd_epi16(pix, mmk)) ; _mm256_unpackhi_epi8(source, _mm256_setzero_si256()) ; _mm256_add_epi32(sss3, _mm256_madd_epi16(pix, mmk)) ; first() ; iter_rows(y_last) ; _mm256_set1_epi32(k as i32) ; simd_utils::loadu_si256(components, src_x) ; _mm256_setzero_si256() ; _mm256_unpacklo_epi8(source1, source2) ; _mm256_unpacklo_epi8(source, _mm256_setzero_si256()) ; _mm256_add_epi32(sss0, _mm256_madd_epi16(pix, mmk)) ; _mm256_unpackhi_epi8(source, _mm256_setzero_si256()) ; _mm256_add_epi32(sss1, _mm256_madd_epi16(pix, mmk)) ; _mm256_unpackhi_epi8(source1, _mm256_setzero_si256()) ; _mm256_unpacklo_epi8(source, _mm256_setzero_si256()) ; _mm256_add_epi32(sss2, _mm256_madd_epi16(pix, mmk)) ; _mm256_unpackhi_epi8(source, _mm256_setzero_si256()) ; _mm256_add_epi32(sss3, _mm256_madd_epi16(pix, mmk)) ; _mm256_srai_epi32::<PRECISION>(sss0) ; _mm256_srai_epi32::<PRECISION>(sss1) ; _mm256_srai_epi32::<PRECISION>(sss2) ; _mm256_srai_epi32::<PRECISION>(sss3) ; _mm256_packs_epi32(sss0, sss1) ; _mm256_packs_epi32(sss2, sss3) ; _mm256_packus_epi16(sss0, sss2) ; _mm256_storeu_si256(dst_ptr, sss0) ; into_remainder() ; chunks_exact_mut(8) ; chunks_exact(2) ; remainder() ; iter_2_rows(y_start, max_rows) ; simd_utils::mm_load_and_clone_i16x2(two_coeffs) ; simd_utils::loadl_epi64(components1, src_x) ; simd_utils::loadl_epi64(components2, src_x) ; _mm_unpacklo_epi8(source1, source2) ; _mm_unpacklo_epi8(source, _mm_setzero_si128()) ; _mm_add_epi32(sss0, _mm_madd_epi16(pix, mmk)) ; _mm_unpackhi_epi8(source, _mm_setzero_si128()) ; _mm_add_epi32(sss1, _mm_madd_epi16(pix, mmk)) ; first() ; iter_rows(y_last) ; _mm_set1_epi32(k as i32) ; simd_utils::loadl_epi64(components, src_x) ; _mm_setzero_si128() ; _mm_unpacklo_epi8(source1, source2) ; _mm_unpacklo_epi8(source, _mm_setzero_si128()) ; _mm_add_epi32(sss0, _mm_madd_epi16(pix, mmk)) ; _mm_unpackhi_epi8(source, _mm_setzero_si128()) ; _mm_add_epi32(sss1, _mm_madd_epi16(pix, mmk)) ; _mm_srai_epi32::<PRECISION>(sss0) ; _mm_srai_epi32::<PRECISION>(sss1) ; _mm_packs_epi32(sss0, sss1) ; _mm_packus_epi16(sss0, sss0) ; _mm_storel_epi64(dst_ptr, sss0) ; into_remainder() ; chunks_exact_mut(4) ; chunks_exact(2) ; remainder() ; iter_2_rows(y_start, max_rows) ; simd_utils::mm_load_and_clone_i16x2(two_coeffs) ; simd_utils::mm_cvtsi32_si128_from_u8(components1, src_x) ; simd_utils::mm_cvtsi32_si128_from_u8(components2, src_x) ; _mm_unpacklo_epi8(row1, row2) ; _mm_unpacklo_epi8(pixels_u8, _mm_setzero_si128()) ; _mm_add_epi32(sss, _mm_madd_epi16(pixels_i16, two_coeffs)) ; first() ; iter_rows(y_last) ; simd_utils::mm_cvtepu8_epi32_from_u8(components, src_x) ; _mm_set1_epi32(k as i32) ; _mm_add_epi32(sss, _mm_madd_epi16(pix, mmk)) ; _mm_srai_epi32::<PRECISION>(sss) ; _mm_packs_epi32(sss, sss) ; _mm_cvtsi128_si32(_mm_packus_epi16(sss, sss)) ; into_remainder() ; native::convolution_by_u8(src_view, normalizer, 1 << (PRECISION as u8 - 1), dst_u8, src_x, y_start, coeffs,)" := by rfl
+
 end Fir.C02
